@@ -144,13 +144,50 @@ def _torn(rng, uni):
     return True
 
 
+def _redefine(rng, uni, res, conflict):
+    """Add a second %define of a name somewhere LATER in reading order,
+    usually on the other side of a fragment boundary: with the same value
+    (accepted) or with a different one (rejected) -- the two sides of the
+    boundary must share one namespace."""
+    entries, _sections, _before = layout.walk(uni)
+    defs = [(k, e) for k, e in enumerate(entries)
+            if e["line"]["role"] == "define"]
+    res = {u: list(ls) for u, ls in res.items()}
+    if not defs:
+        # no definition in the text: put one at the very top
+        top = uni["top"]
+        res[top].insert(0, "%define zzq first")
+        name, raw, k = "zzq", "first", -1
+        shift = {top: 1}
+    else:
+        k, e = rng.choice(defs)
+        parts = e["line"]["t"].strip().split(None, 2)
+        name = parts[1]
+        raw = parts[2] if len(parts) > 2 else ""
+        shift = {}
+    later = entries[k + 1:]
+    other = [e for e in later if k < 0 or e["url"] != entries[k]["url"]]
+    pool = other if (other and rng.random() < 0.8) else later
+    if pool:
+        e2 = rng.choice(pool)
+        url, idx = e2["url"], e2["idx"] + shift.get(e2["url"], 0)
+    else:
+        url = uni["top"]
+        idx = len(res[url])
+    name = rng.choice([name, name.upper(), name.capitalize()])
+    value = "zzother" if conflict else raw
+    res[url].insert(idx, ("%%define %s %s" % (name, value)).rstrip())
+    return res
+
+
 def generate(rng, tier, index):
     ir, lines = G.gen_pair(rng, {"handlers": False},
                            {"full": rng.choice([0.5, 0.8, 1.0])})
     xml = G.render_schema(ir)
     uni = layout.cut(rng, lines, ncuts=rng.choice([1, 1, 2, 3]), decoys=True)
     variant = rng.choice(["plain", "plain", "plain", "invalid", "invalid",
-                          "torn-cut", "missing-fragment", "open-fault"])
+                          "torn-cut", "missing-fragment", "open-fault",
+                          "define-conflict", "define-repeat"])
     plan = {"prop": ID, "schema_xml": xml, "top": uni["top"],
             "variant": variant, "fault": None}
     res = TF.res_texts(uni)
@@ -160,6 +197,8 @@ def generate(rng, tier, index):
             res = TF.apply(res, rng.choice(injs))
         else:
             plan["variant"] = "plain"
+    elif variant in ("define-conflict", "define-repeat"):
+        res = _redefine(rng, uni, res, variant == "define-conflict")
     elif variant == "torn-cut":
         if _torn(rng, uni):
             res = TF.res_texts(uni)
@@ -234,10 +273,11 @@ def execute(plan):
         out["log"].append("cut: %s ; opened %r ; expected %r"
                           % (ops.brief(oc), opened, expected))
 
-        if n_open_inlined and variant != "invalid":
+        if n_open_inlined and variant not in ("invalid",):
             # an include line survived inlining although its target exists
             raise RuntimeError("inliner left an include: %r" % inlined)
-        if variant in ("plain", "invalid"):
+        if variant in ("plain", "invalid", "define-conflict",
+                       "define-repeat"):
             if oi["ok"] != oc["ok"]:
                 violation("outcome-differs",
                           "inlined text %s but cut layout %s"
@@ -294,6 +334,10 @@ def execute(plan):
             out["fired"][variant] = 1
         if variant == "invalid" and not oi["ok"]:
             out["fired"]["text-fault"] = 1
+        if variant == "define-conflict" and not oi["ok"]:
+            out["fired"]["define-conflict"] = 1
+        if variant == "define-repeat" and oi["ok"]:
+            probe("define-repeated-across-boundary-accepted")
         if len(opened) > 1:
             h = hashlib.sha256(json.dumps(
                 [plan["schema_xml"], store, variant, plan.get("missing"),
